@@ -107,6 +107,18 @@ func (h *Heap) get(id int) *Obj {
 	return o
 }
 
+func (h *Heap) objOrNil(id int) *Obj {
+	if o, ok := h.objs[id]; ok {
+		return o
+	}
+	if h.base != nil {
+		if o, ok := h.base.objs[id]; ok {
+			return o
+		}
+	}
+	return nil
+}
+
 func (h *Heap) mut(id int) *Obj {
 	if h.owned[id] {
 		return h.objs[id]
